@@ -336,4 +336,36 @@ theorem nearestRat_spec (f : Fmt) (hp : 2 ≤ f.p) (N M : Nat) (hN : 0 < N) (hM 
   · unfold nearestRat
     rw [if_neg (Nat.pos_iff_ne_zero.mp hN)]
 
+/-- **finer grid**: a value `m' · 2^q / T` of a smaller exponent (`T = 2^(q - q') ≥ 2`, `m' < 2^p`) lies below
+`2^(p-1) · 2^q ≤ x` by at least half a unit of `2^q`, hence is not closer to `x` than the rounded `m`
+(distances cross-multiplied by `2·B·T`). Needs `2^(p-1) ≤ ⌊A/B⌋`, which holds whenever `q > emin`. -/
+theorem finer_grid_not_closer (p A B m m' T : Nat) (hB : 0 < B) (hp : 1 ≤ p)
+    (hnorm : 2 ^ (p - 1) ≤ A / B) (hm' : m' < 2 ^ p) (hT : 2 ≤ T)
+    (hhalf : 2 * A ≤ 2 * (m * B) + B ∧ 2 * (m * B) ≤ 2 * A + B) :
+    2 * (B * m') ≤ 2 * (A * T) ∧
+    ((2 * A - 2 * (m * B)) + (2 * (m * B) - 2 * A)) * T ≤ 2 * (A * T) - 2 * (B * m') := by
+  -- 2^(p-1)·B ≤ A
+  have hA : 2 ^ (p - 1) * B ≤ A := (Nat.le_div_iff_mul_le hB).mp hnorm
+  have hpow : 2 ^ p = 2 * 2 ^ (p - 1) := by
+    have : p = (p - 1) + 1 := by omega
+    rw [this, Nat.pow_succ, Nat.mul_comm]; simp
+  -- 2·m' + 2 ≤ 2^p·... : 2·m' ≤ (2^p - 1)·T because T ≥ 2
+  have h1 : 2 * m' + T ≤ 2 ^ p * T := by
+    have : m' + 1 ≤ 2 ^ p := hm'
+    have h2 : (m' + 1) * T ≤ 2 ^ p * T := Nat.mul_le_mul this (Nat.le_refl _)
+    have h3 : m' * 2 ≤ m' * T := Nat.mul_le_mul (Nat.le_refl _) hT
+    rw [Nat.add_mul, Nat.one_mul] at h2
+    omega
+  -- multiply by B:  2·B·m' + B·T ≤ 2^p·B·T ≤ 2·A·T
+  have h4 : B * (2 * m' + T) ≤ B * (2 ^ p * T) := Nat.mul_le_mul (Nat.le_refl _) h1
+  have h5 : B * (2 ^ p * T) = 2 * ((2 ^ (p - 1) * B) * T) := by
+    rw [hpow]; simp only [Nat.mul_comm, Nat.mul_left_comm]
+  have h6 : (2 ^ (p - 1) * B) * T ≤ A * T := Nat.mul_le_mul hA (Nat.le_refl _)
+  have h7 : B * (2 * m' + T) = 2 * (B * m') + B * T := by
+    rw [Nat.mul_add]; simp only [Nat.mul_assoc, Nat.mul_comm]
+  -- the rounded distance is at most B (in units of 1/(2B)), so times T at most B·T
+  have h8 : ((2 * A - 2 * (m * B)) + (2 * (m * B) - 2 * A)) * T ≤ B * T :=
+    Nat.mul_le_mul (by omega) (Nat.le_refl _)
+  omega
+
 end RsslVerif.Spec.Dec2Bin
